@@ -30,9 +30,15 @@
                                            `mwpmNetworkx_min_weight_perfect`)
   C02's `toric_mwpm_syndrome` / `planar_mwpm_syndrome` (recovery reproduces the syndrome) are imported
   and used as proved.
+  * `toric_mwpm_corrects_all_sizes`, `planar_mwpm_corrects_all_sizes`: the same with the C07 / C08 / C15
+    hypotheses discharged from Props/C08.lean (`distance_lower_*`, all sizes), Props/C15/{Toric,Planar}.lean
+    and the CSS shape of the generators (Lemmas/TJoin.lean) — d = min R C; only `h_min…` (C13) remains.
 -/
 import QecVerif.Lemmas.TJoin
 import QecVerif.Props.C02
+import QecVerif.Props.C08
+import QecVerif.Props.C15.Toric
+import QecVerif.Props.C15.Planar
 import QecVerif.Props.C14.Mwpm
 namespace Qec.C14
 open Qec Qec.Dec Qec.NaiveDecode Qec.MwpmSplit Qec.MwpmReduce Qec.TJoin Qec.ChainToric
@@ -386,6 +392,121 @@ theorem planar_decode_corrects (R C : Int) (hR : 2 ≤ R) (hC : 2 ≤ C)
   simp only
   rw [e1, e2]
   exact hrec
+
+/-! ### discharging the C07 / C08 / C15 hypotheses from the proved theorems of those properties
+
+  Only the C13 hypothesis (the matching returned is a minimum-weight perfect matching of the modelled
+  graph) remains. -/
+
+/-- C08 ⇒ `DistHyp`: if every non-trivial logical weighs at least `d`, then every operator lighter than
+    `d` that commutes with `S` commutes with `L` -/
+theorem distHyp_of_lower (S L : List BVec) (n d : Nat)
+    (h : ∀ e : BVec, e.length = 2 * n → Distance.IsLogical S L e → d ≤ Distance.wt e) : DistHyp S L n d := by
+  intro v hv hs hw
+  rw [isZero_synd_iff] at hs ⊢
+  intro row hrow
+  cases hb : bsp v row with
+  | false => rfl
+  | true =>
+    exfalso
+    have := h v hv ⟨(Distance.commAll_iff S v).mpr hs, row, hrow, hb⟩
+    unfold Distance.wt at this
+    omega
+
+/-- C15 (toric) ⇒ the path facts used by C02 / C14 -/
+theorem toric_path_facts (R C : Int) (hR : 2 ≤ R) (hC : 2 ≤ C) :
+    ToricL.Spec R C ∧
+    (∀ a b, ToricL.Ok R C a b → bsfWt (ToricL.pathT R C a b) ≤ toricDistT R C a b) := by
+  refine ⟨⟨Toric.indices_nodup R C, fun a ha b hb hab =>
+    C15.Toric.path_syndrome_vector_real R C hR hC a b ((Toric.mem_indices R C a).mp ha)
+      ((Toric.mem_indices R C b).mp hb) hab⟩, ?_⟩
+  intro a b hab
+  obtain ⟨v, t, d, hv, _, hd, hw, _⟩ := C15.Toric.path_weight R C hR hC a b (by rw [hab.2.2])
+  rw [ToricL.pathT_of_ok R C a b v hv]
+  unfold toricDistT
+  rw [hd, hw]
+
+/-- C15 (planar) ⇒ the path facts used by C02 / C14 -/
+theorem planar_path_facts (R C : Int) (hR : 2 ≤ R) (hC : 2 ≤ C) :
+    PlanarL.Spec R C ∧
+    (∀ a b, PlanarL.Ok R C a b → bsfWt (PlanarL.pathT R C a b) ≤ Dec.distT R C a b) := by
+  have hspec : PlanarL.Spec R C :=
+    ⟨C15.Planar.plaquetteIndices_spec R C hR hC,
+     fun a b ha hb hab => C15.Planar.path_syndrome_vector R C hR hC a b ha hb hab,
+     fun p hp => by
+       obtain ⟨v, h1, h2, h3, _⟩ := C15.Planar.virtualPlaquette_spec R C hR hC p hp
+       exact ⟨v, h1, h2, h3⟩⟩
+  refine ⟨hspec, ?_⟩
+  intro a b hab
+  rcases hab.2 with ⟨ha, hb⟩ | ⟨ha, hb⟩
+  · obtain ⟨v, d, hv, hd, hw⟩ := C15.Planar.path_weight_le R C hR hC a b ha hb hab.1
+    rw [PlanarL.pathT_of_ok R C a b v hv]
+    unfold Dec.distT
+    rw [hd]
+    exact hw
+  · rw [PlanarL.pathT_of_ok R C a b _ (PlanarL.path_out_out R C _ a b ha hb hab.1), Planar.bsfWt_identity]
+    exact Nat.zero_le _
+
+/-- **toric_mwpm_corrects, with C07 / C08 / C15 discharged**: for ALL R, C ≥ 2 and `t = ⌊(min R C − 1)/2⌋`,
+    every error whose X-component and Z-component each have weight ≤ t is corrected by the modelled
+    toric MWPM decoder for ANY minimum-weight perfect matchings of the two modelled graphs: the recovery
+    exists, has the syndrome, and `recovery ⊕ e` commutes with all stabilizers and all four logicals. -/
+theorem toric_mwpm_corrects_all_sizes (R C : Int) (hR : 2 ≤ R) (hC : 2 ≤ C)
+    (e : BVec) (he : e.length = 2 * (Toric.nQubits R C).toNat)
+    (heX : bsfWt (xPart e) ≤ ((min R C).toNat - 1) / 2) (heZ : bsfWt (zPart e) ≤ ((min R C).toNat - 1) / 2)
+    (m0 m1 : List (Toric.Idx × Toric.Idx))
+    (h_min0 : MinWeightPM R C (toricDefects R C (synd (Toric.stabilizers R C) e) 0) m0)
+    (h_min1 : MinWeightPM R C (toricDefects R C (synd (Toric.stabilizers R C) e) 1) m1) :
+    ∃ r, toricMwpmRecovery R C m0 m1 = .ok r ∧
+      synd (Toric.stabilizers R C) r = synd (Toric.stabilizers R C) e ∧
+      corrected (Toric.stabilizers R C) (Toric.logicalXs R C ++ Toric.logicalZs R C) e r = true := by
+  obtain ⟨hspec, hweight⟩ := toric_path_facts R C hR hC
+  have hL : ∀ row ∈ Toric.logicalXs R C ++ Toric.logicalZs R C, row.length = 2 * ToricL.nq R C := by
+    intro row hrow
+    simp only [Toric.logicalXs, Toric.logicalZs, List.cons_append, List.nil_append, List.mem_cons,
+      List.not_mem_nil, or_false] at hrow
+    rcases hrow with rfl | rfl | rfl | rfl
+    · exact Distance.Weights.toric_logicalX1_len R C hR hC
+    · exact Distance.Weights.toric_logicalX2_len R C hR hC
+    · exact Distance.Weights.toric_logicalZ1_len R C hR hC
+    · exact Distance.Weights.toric_logicalZ2_len R C hR hC
+  have hdist : DistHyp (Toric.stabilizers R C) (Toric.logicalXs R C ++ Toric.logicalZs R C) (ToricL.nq R C)
+      (min R C).toNat :=
+    distHyp_of_lower _ _ _ _ (fun v hv hl => by
+      have := C08.distance_lower_toric R C hR hC v hv hl
+      omega)
+  obtain ⟨r, h1, h2, _, _, h5⟩ := toric_mwpm_corrects R C hR hC hspec hweight
+    (toric_isCSS R C (by omega) (by omega)) _ hL (min R C).toNat (by omega) hdist e he heX heZ m0 m1 h_min0 h_min1
+  exact ⟨r, h1, h2, h5⟩
+
+/-- **planar_mwpm_corrects, with C07 / C08 / C15 discharged**: for ALL R, C ≥ 2 and
+    `t = ⌊(min R C − 1)/2⌋`, every error whose X-component and Z-component each have weight ≤ t is
+    corrected by the modelled planar MWPM decoder for ANY minimum-weight perfect matchings of the two
+    modelled graphs -/
+theorem planar_mwpm_corrects_all_sizes (R C : Int) (hR : 2 ≤ R) (hC : 2 ≤ C)
+    (e : BVec) (he : e.length = 2 * (Planar.nQubits R C).toNat)
+    (heX : bsfWt (xPart e) ≤ ((min R C).toNat - 1) / 2) (heZ : bsfWt (zPart e) ≤ ((min R C).toNat - 1) / 2)
+    (mP mD : List (Idx2 × Idx2))
+    (h_minP : MinWeightPMPlanar R C true (planarDefects R C (synd (Planar.stabilizers R C) e) true) mP)
+    (h_minD : MinWeightPMPlanar R C false (planarDefects R C (synd (Planar.stabilizers R C) e) false) mD) :
+    ∃ r, planarMwpmRecovery R C mP mD = .ok r ∧
+      synd (Planar.stabilizers R C) r = synd (Planar.stabilizers R C) e ∧
+      corrected (Planar.stabilizers R C) [Planar.logicalX R C, Planar.logicalZ R C] e r = true := by
+  obtain ⟨hspec, hweight⟩ := planar_path_facts R C hR hC
+  have hL : ∀ row ∈ [Planar.logicalX R C, Planar.logicalZ R C], row.length = 2 * PlanarL.nq R C := by
+    intro row hrow
+    simp only [List.mem_cons, List.not_mem_nil, or_false] at hrow
+    rcases hrow with rfl | rfl
+    · exact Distance.Weights.planar_logicalX_len R C hR hC
+    · exact Distance.Weights.planar_logicalZ_len R C hR hC
+  have hdist : DistHyp (Planar.stabilizers R C) [Planar.logicalX R C, Planar.logicalZ R C] (PlanarL.nq R C)
+      (min R C).toNat :=
+    distHyp_of_lower _ _ _ _ (fun v hv hl => by
+      have := C08.distance_lower_planar R C hR hC v hv hl
+      omega)
+  obtain ⟨r, h1, h2, _, _, h5⟩ := planar_mwpm_corrects R C hR hC hspec hweight
+    (ChainPlanar.planar_isCSS R C hR hC) _ hL (min R C).toNat (by omega) hdist e he heX heZ mP mD h_minP h_minD
+  exact ⟨r, h1, h2, h5⟩
 
 /-! ### non-vacuity and tiny-instance tests -/
 
